@@ -132,4 +132,48 @@ def sweep():
                           "detail": "%s with rank-order %s: omitted loop order differs from the written default %s"
                                     % (expr, ro, written_ranks(expr)),
                           "witness": {"einsum": expr, "rank_order": ro, "explicit_default_loop_order": written_ranks(expr)}})
+    # histories: the default of an Einsum must not depend on what was compiled or configured before it
+    # (a) one parsed Mapping with everything omitted, used for two compilations that write a tensor of the same name
+    pairs = [(({"A": "[K, M]", "B": "[K, N]", "Z": "[M, N]"}, "Z[m, n] = A[k, m] * B[k, n]"),
+              ({"A": "[K, M]", "B": "[K, N]", "Z": "[N, M]"}, "Z[n, m] = B[k, n] * A[k, m]")),
+             (({"A": "[K, M]", "Z": "[M]"}, "Z[m] = A[k, m]"), ({"A": "[K, M]", "Z": "[K]"}, "Z[k] = A[k, m]"))]
+    for (d1, e1), (d2, e2) in pairs:
+        shared = Mapping.from_str("mapping:\n")
+        try:
+            y1, y2 = yaml_of(d1, e1, {}, False), yaml_of(d2, e2, {}, False)
+            str(HiFiber(Einsum.from_str(y1), shared))
+            second = str(HiFiber(Einsum.from_str(y2), shared))
+            expl = str(HiFiber(Einsum.from_str(y2), Mapping.from_str(yaml_of(d2, e2, {}, True))))
+        except Exception as e:      # noqa
+            second, expl = "ERROR %s" % e, "ERROR"
+        ev += 1
+        distinct.add(second)
+        if second != expl:
+            fails.append({"name": "bounded/omitted-vs-explicit-default",
+                          "detail": "%s compiled with a Mapping object that was used before (for %s), everything omitted, differs "
+                                    "from its written default %s" % (e2, e1, written_ranks(e2)),
+                          "witness": {"first": e1, "second": e2, "explicit_default_loop_order": written_ranks(e2)}})
+    # (b) a cascade whose first Einsum has an explicit loop order and whose second Einsum omits it
+    casc = [({"A": "[K, M]", "B": "[K, N]", "C": "[M, N]", "T": "[M, N]", "Z": "[M, N]"},
+             ["T[m, n] = A[k, m] * B[k, n]", "Z[m, n] = T[m, n] * A[k, m]"], {"T": "[M, K, N]"}),
+            ({"A": "[K, M]", "T": "[M]", "Z": "[M]"}, ["T[m] = A[k, m]", "Z[m] = A[k, m] * T[m]"], {"T": "[K, M]"})]
+    for decl, exprs, lo in casc:
+        base = "einsum:\n  declaration:\n" + "".join("    %s: %s\n" % kv for kv in decl.items())
+        base += "  expressions:\n" + "".join("    - %s\n" % e for e in exprs)
+        m1 = "mapping:\n  loop-order:\n" + "".join("    %s: %s\n" % kv for kv in lo.items())
+        out2 = exprs[1].split("[", 1)[0].strip()
+        m2 = m1 + "    %s: [%s]\n" % (out2, ", ".join(written_ranks(exprs[1])))
+        try:
+            t1 = str(HiFiber(Einsum.from_str(base), Mapping.from_str(base + m1)))
+            t2 = str(HiFiber(Einsum.from_str(base), Mapping.from_str(base + m2)))
+        except Exception as e:      # noqa
+            t1, t2 = "ERROR %s" % e, "ERROR"
+        ev += 1
+        distinct.add(t1)
+        if t1 != t2:
+            fails.append({"name": "bounded/omitted-vs-explicit-default",
+                          "detail": "cascade %s: the second Einsum's omitted loop order differs from its written default %s "
+                                    "when the first has the explicit order %s" % (exprs, written_ranks(exprs[1]), lo),
+                          "witness": {"cascade": exprs, "first_loop_order": lo,
+                                      "explicit_default_loop_order": written_ranks(exprs[1])}})
     return ev, len(distinct), fails, samples
